@@ -173,7 +173,9 @@ def _genmodel(r):
     D = np.round(D, 4)
     m = int(np.triu(A, 1).sum()) + r.randint(1, 3)
     mt = r.choice(('euclidean', 'matching', 'neighbors', 'deg-avg', 'clu-avg', 'deg-prod'))
-    return (A, D, m, [r.choice((-1.0, -2.0))]), {'gamma': [r.choice((0.5, 1.0))], 'model_type': mt, 'model_var': r.choice(('powerlaw', 'exponential'))}
+    npar = r.choice((1, 2, 3))  # a sweep over several (eta, gamma) pairs runs the generator once per pair
+    return (A, D, m, [r.choice((-1.0, -2.0, -0.5)) for _ in range(npar)]), {'gamma': [r.choice((0.5, 1.0, 0.2)) for _ in range(npar)], 'model_type': mt,
+                                                                            'model_var': r.choice(('powerlaw', 'exponential'))}
 
 
 reg('generative_model', _genmodel)
